@@ -78,6 +78,7 @@ func (s *jobSnapshot) addSourceRunnerSnapshot(ckpt *jobpb.SourceRunnerCheckpoint
 	}
 	if wasCompleted {
 		slog.Warn("received another source runner checkpoint from same id", "id", ckpt.SourceRunnerId)
+		return nil // The split states of this source runner are already recorded.
 	}
 
 	s.sourceRunnerIDsComplete[ckpt.SourceRunnerId] = true
